@@ -152,6 +152,20 @@ func Tag(p *eioparser.Packet) string {
 	return string(b)
 }
 
+func sanitize(d []byte, max int) string {
+	if len(d) > max {
+		d = d[:max]
+	}
+	b := make([]byte, 0, len(d))
+	for _, c := range d {
+		if c < 0x20 || c > 0x7e || c == '"' || c == '\\' {
+			c = '?'
+		}
+		b = append(b, c)
+	}
+	return string(b)
+}
+
 func conv(v any) any {
 	if Convert != nil {
 		if c, ok := Convert(v); ok {
@@ -177,6 +191,14 @@ func conv(v any) any {
 			return []int{}
 		}
 		return x
+	case [][]byte:
+		// frames of one Socket.IO packet: the header frame identifies it
+		if len(x) == 0 {
+			return ""
+		}
+		return sanitize(x[0], 60)
+	case []byte:
+		return sanitize(x, 60)
 	case []*eioparser.Packet:
 		t := make([]string, len(x))
 		for i, p := range x {
